@@ -413,6 +413,29 @@ def gen_data(rng, n):
     return out[:n]
 
 
+def check_path_reuse(run, rng, tmpdir):
+    """the string file in force is the one the path holds now: the same buffer decoded before and after the file at one path was
+    rewritten, the second answer against a decode with the same contents under a path never used before"""
+    import struct
+    for k in range(3):
+        h = rng.randrange(1, 1 << 31)
+        entry = struct.pack(">HHHHII", 1, k, 0, 0x4654, h, 10 + k) + struct.pack(">I", 20)
+        data = bytes([1, 32, 0, ord("B")]) + b"POWR".ljust(12, b"\0") + bytes(4) + struct.pack(">III", 32 + len(entry), 0, 32 + len(entry)) + entry
+        first = ["%d||first contents %d||a.cpp(1)" % (h, k)]
+        second = rng.choice([["%d||second contents %d||b.cpp(2)" % (h, k)], ["%d||other string||c.cpp(3)" % (h + 1)], []])
+        p = write_string_file(tmpdir, "reused_path", first)
+        impl_parse(data, p)
+        p = write_string_file(tmpdir, "reused_path", second)
+        again = impl_parse(data, p)
+        fresh = impl_parse(data, write_string_file(tmpdir, "fresh_path_%d_%d" % (k, rng.randrange(1 << 30)), second))
+        run.evaluations += 1
+        run.count("string-file-path-reuse")
+        if again != fresh:
+            run.violation("stringfile:stale", "a trace buffer is decoded with an earlier state of the string file at the same path",
+                          dict(kind="S", fn="string-file-reuse", input_hex=data.hex(), first_contents=first, second_contents=second,
+                               actual=again[-3:], expected=fresh[-3:]))
+
+
 def synthetic_tables(rng, tmpdir, n_tables):
     """string files built so that exact / last-partial / unknown lookups all occur and the order matters"""
     tables = []
@@ -598,6 +621,7 @@ def run(run, model, proof):
                 "non-trivial = distinct input with a header and at least one displayed entry")
     tmpdir = tempfile.mkdtemp(prefix="verif_c15_")
     try:
+        check_path_reuse(run, rng, tmpdir)
         tables = synthetic_tables(rng, tmpdir, 6 if thorough else 3)
         for t_ in tables:
             check_table_parse(run, t_)
